@@ -41,11 +41,21 @@ def _cf_post(a, ret, st):
             ("step:mask_is_full_combination", Forall(
                 [("r!cfm", Int)], lambda rr: z3.Implies(z3.And(rr >= 0, rr < n), z3.Select(mask.data, rr) == full(rr)),
                 patterns=lambda rr: [z3.Select(mask.data, rr)], hints=lambda r0: [z3.Select(mask.data, r0), z3.Select(tid.data, r0)], without=other)),
-            # NOT PROVED (bounded stand-in native/c13.py::combo_filter): the membership chain
-            #   sel[r] <=> every treatment of row r is the control or occurs in unique(flatten(tid[mask]))
-            # needs nested existential witnesses through isin/concatenate/unique/flatten(div,mod)/mask-gather; with stepping stones
-            # the three clauses discharge in some runs (0.5 s .. 40 s) and go `unknown` in others, i.e. they are unstable under
-            # every solver schedule tried - an unstable obligation would be a false alarm waiting to happen, so it is not registered.
+        ] + ([
+            # the membership chain (through isin / concatenate / unique / flatten / mask selection) is registered for arity 2 - the arity the
+            # shipped models support - where all of it discharges in about a second; at arity 3 one clause stays `unknown`, so the keep-set is
+            # decided there by the bounded harness only
+            ("step:every_selected_treatment_occurs_in_a_full_combination", Forall(
+                [("p!cfa", Int)], lambda pp: z3.Implies(z3.And(pp >= 0, pp < m), in_combo(a, z3.Select(U.data, pp))),
+                patterns=lambda pp: [z3.Select(U.data, pp)], hints=lambda p0: [z3.Select(U.data, p0)], without=other)),
+            ("step:every_treatment_of_a_full_combination_is_selected", Forall(
+                [("r!cfb", Int)], lambda rr: z3.Implies(z3.And(rr >= 0, rr < n, full(rr)),
+                                                        z3.And(*[z3.Exists([p], z3.And(p >= 0, p < m, z3.Select(U.data, p) == tid.at(rr, c))) for c in range(ar)])),
+                patterns=lambda rr: [z3.Select(tid.data, rr)], hints=lambda r0: [z3.Select(mask.data, r0), z3.Select(tid.data, r0)], without=other)),
+            ("keeps_exactly_rows_whose_treatments_all_occur_in_a_full_combination", Forall(
+                [("r!cfp", Int)], lambda rr: z3.Implies(z3.And(rr >= 0, rr < n), z3.Select(sel.data, rr) == keep(rr)),
+                patterns=lambda rr: [z3.Select(sel.data, rr)], hints=lambda r0: [z3.Select(sel.data, r0), z3.Select(tid.data, r0)], without=other)),
+        ] if ar == 2 else []) + [
             ("result_is_that_selection", z3.And(*[selected(G(ret, f), G(a.screen, f), sel, n) for f in ("_sample_names", "_observations", "plate_names", "_treatment_names")]))]
 
 
